@@ -22,8 +22,30 @@ CALLS = []           # log of stub calls of the current path (C09 monitor etc.)
 ASSUMPTIONS = set()
 
 
+MEMO = {}            # per path: stub answers keyed by the argument terms (determinism of the libraries)
+
+
 def reset_path():
     del CALLS[:]
+    MEMO.clear()
+
+
+def _key(x):
+    if isinstance(x, SymFloat):
+        if getattr(x, 'v', None) is None:
+            return ('inf', x.pos)
+        return ('F', z3.simplify(x.n).get_id(), z3.simplify(x.v).get_id())
+    if isinstance(x, SymInt):
+        return ('I', z3.simplify(x.e).get_id())
+    if isinstance(x, SymBool):
+        return ('B', x.e.get_id())
+    if isinstance(x, float):
+        return ('f', repr(x))
+    if isinstance(x, (list, tuple)):
+        return tuple(_key(i) for i in x)
+    if isinstance(x, ndarray):
+        return ('A', x.shape, tuple(_key(i) for i in x.d))
+    return ('c', repr(x))
 
 
 def _nxt(kind):
@@ -96,11 +118,15 @@ class AgglomerativeClustering:
         if not isinstance(self.metric, str) or self.metric not in (
                 'euclidean', 'manhattan', 'cityblock', 'l1', 'l2', 'cosine', 'precomputed'):
             raise ValueError("The 'metric' parameter of AgglomerativeClustering is invalid: %r" % (self.metric,))
-        if self.linkage == 'single' and self.metric == 'euclidean' and OPTIONS['single_exact']:
+        key = ('agg', self.linkage, self.metric, _key(self.distance_threshold), _key(X))
+        if key in MEMO:
+            labs, k = MEMO[key]
+        elif self.linkage == 'single' and self.metric == 'euclidean' and OPTIONS['single_exact']:
             labs, k = _single_linkage(X, self.distance_threshold)
         else:
             ASSUMPTIONS.add('AgglomerativeClustering(%s,%s): arbitrary partition of the samples' % (self.linkage, self.metric))
             labs, k = partition_labels(n, 'agg')
+        MEMO[key] = (list(labs), k)
         self.labels_ = ndarray(labs)
         self.n_clusters_ = k
         return self
@@ -203,10 +229,14 @@ def lowess(endog, exog, frac=2.0 / 3.0, it=3, delta=0.0, xvals=None, is_sorted=F
     if not (is_sorted and return_sorted):
         raise ShimGap('lowess without is_sorted/return_sorted')
     ASSUMPTIONS.add('lowess: returns an N x 2 array, first column the given x, second column arbitrary finite reals')
+    ASSUMPTIONS.add('all three numerical procedures are deterministic: equal arguments give equal answers')
     eng = core.ENG
+    key = ('lowess', _key(frac), _key(it), _key(y), _key(x))
+    if key not in MEMO:
+        MEMO[key] = [eng.stub_real('lowess') for _ in range(len(y))]
     out = []
     for i in range(len(y)):
-        out += [x[i], eng.stub_real('lowess')]
+        out += [x[i], MEMO[key][i]]
     return ndarray(out, (len(y), 2))
 
 
